@@ -1,7 +1,7 @@
 """Side-car contracts, one module per property.  registry() -> {unit name: Unit}."""
 import importlib
 
-MODULES = ['core', 'C04', 'dist', 'C17', 'C16', 'C19', 'C15', 'C05', 'C08', 'C13', 'C01', 'C14', 'C06', 'C07', 'C12', 'C20', 'C02mvn', 'C11tri', 'C01solve', 'C13ar', 'C15b', 'C11rec']
+MODULES = ['core', 'C04', 'dist', 'C17', 'C16', 'C19', 'C15', 'C05', 'C08', 'C13', 'C01', 'C14', 'C06', 'C07', 'C12', 'C20', 'C02mvn', 'C11tri', 'C01solve', 'C13ar', 'C15b', 'C11rec', 'C11m', 'C15c', 'C04b']
 _reg = None
 
 
@@ -9,7 +9,9 @@ def registry():
     global _reg
     if _reg is None:
         _reg = {}
-        for m in MODULES:
+        import os
+        extra = [x for x in os.environ.get('VERIF_EXTRA_MODULES', '').split(',') if x]      # dev only: modules under construction
+        for m in MODULES + extra:
             mod = importlib.import_module('contracts.' + m)
             for u in mod.UNITS:
                 assert u.name not in _reg, u.name
